@@ -168,7 +168,8 @@ int main(int argc, char** argv) {
 				std::cout << "\n";
 			} else if (query == "S") {
 				if (n == 0 || keff == 0) { std::cout << "S EXC\n"; continue; }
-				std::vector<bool> sel(n, false);
+				// the selection flags are an OUTPUT; the buffer handed in is a reused one that still holds flags of an earlier call
+				std::vector<bool> sel(n, false); for (std::size_t i = 0; i < n; ++i) sel[i] = ((i * 7 + n) % 3 != 0);
 				std::string r = guard([&] {
 					HypervolumeSubsetSelection2D s; s(pts, sel, keff, ref);
 					std::string o; for (std::size_t i = 0; i < n; ++i) o += sel[i] ? '1' : '0';
